@@ -14,6 +14,7 @@ import (
 
 	"github.com/Masterminds/semver"
 	"github.com/cube2222/octosql/config"
+	"github.com/cube2222/octosql/plugins/verifhook"
 )
 
 var repositoriesDir = func() string {
@@ -67,15 +68,18 @@ func AddRepository(ctx context.Context, url string) error {
 	if err != nil {
 		return fmt.Errorf("couldn't encode repository entry: %w", err)
 	}
+	verifhook.MkdirAll("repository.make-dir", repositoriesDir)
 	if err := os.MkdirAll(repositoriesDir, 0755); err != nil {
 		return fmt.Errorf("couldn't create plugin repositories directory: %w", err)
 	}
 	// Every file in the repositories directory is decoded when repositories are listed: write the entry
 	// next to the directory and rename it into place, so that an interrupted write never leaves a truncated entry.
 	tmpPath := filepath.Join(filepath.Dir(repositoriesDir), ".repository-"+repo.Slug+".tmp")
+	verifhook.WriteFile("repository.write-tmp", tmpPath, data)
 	if err := os.WriteFile(tmpPath, data, 0644); err != nil {
 		return fmt.Errorf("couldn't write repository entry: %w", err)
 	}
+	verifhook.Rename("repository.move", tmpPath, filepath.Join(repositoriesDir, repo.Slug))
 	if err := os.Rename(tmpPath, filepath.Join(repositoriesDir, repo.Slug)); err != nil {
 		return fmt.Errorf("couldn't move repository entry into place: %w", err)
 	}
